@@ -161,6 +161,42 @@ def operand_value(line, cfg):
     return None
 
 
+def trailing_operand_value(line, cfg):
+    """the specification's value of the operand a phrase ends with, or None"""
+    import datetime
+    f = line["form"]
+    if f == "date_diff":
+        b = line["b"]
+        if "rel" in b or not b.get("y"):
+            return None
+        try:
+            return {"k": "date", "day": (datetime.date(b["y"], b["m"], b["d"]) - datetime.date(1970, 1, 1)).days}
+        except ValueError:
+            return None
+    if f == "time_diff":
+        z = line["z2"]
+        if not z["name"] and "tz_off" not in cfg and cfg.get("tz", "UTC") != "UTC":
+            return None
+        off = z["off"] if z["name"] else cfg.get("tz_off", 0)
+        return {"k": "time", "sod": (line["w2"] - off * 60) % 86400, "off": off}
+    if f == "date_shift" and line["u"] in ("day", "week") and line["n"] * (7 if line["u"] == "week" else 1) < 30:
+        return {"k": "dur", "d": line["n"] * (7 if line["u"] == "week" else 1), "s": 0}
+    if f in ("time_shift", "dt_shift"):
+        t = sum(p["n"] * DUR_SECS[p["u"]] for p in line["parts"])
+        return {"k": "dur", "d": t // 86400, "s": t % 86400}
+    if f == "dur_arith":
+        t = sum(p["n"] * DUR_SECS[p["u"]] for p in line["b"])
+        return {"k": "dur", "d": t // 86400, "s": t % 86400}
+    if f == "pct_phrase" and line["w"] in ("of", "on", "off"):
+        x = line["x"]
+        return {"k": "money", "q": x["q"], "cur": x["cur"]} if x["cur"] else {"k": "num", "q": x["q"]}
+    if f == "money_arith" and line["r"].get("cur"):
+        return {"k": "money", "q": line["r"]["q"], "cur": line["r"]["cur"]}
+    if f == "unit_arith" and line["r"].get("u"):
+        return {"k": "unit", "q": line["r"]["q"], "u": line["r"]["u"]}
+    return None
+
+
 def phrases_through_variables(rep, per_form):
     import forms
     from props import c05, c06, c09, c10, c11, c12, c14
@@ -170,9 +206,14 @@ def phrases_through_variables(rep, per_form):
         for it in forms.collect(m, rep, home=home):
             if it.get("lang", "en") != "en" or it.get("pre") or it.get("today") is not None or it["expected"]["k"] in ("unspec", "fails"):
                 continue
+            if "\n" in it["text"] or "=" in it["text"] or "#" in it["text"]:
+                continue
             ov = operand_value(it["line"], it["cfg"])
-            if ov is not None and "\n" not in it["text"] and "=" not in it["text"] and "#" not in it["text"]:
-                by_form.setdefault(it["line"]["form"], []).append((it, ov))
+            if ov is not None:
+                by_form.setdefault(it["line"]["form"], []).append((it, ov, False))
+            tv = trailing_operand_value(it["line"], it["cfg"])
+            if tv is not None:
+                by_form.setdefault(it["line"]["form"] + ".last", []).append((it, tv, True))
     if len(by_form) < 8:
         raise ToolError("vacuous: phrase forms with a leading operand: %s" % sorted(by_form))
     picked = []
@@ -180,9 +221,17 @@ def phrases_through_variables(rep, per_form):
         its = by_form[f]
         picked += its if len(its) <= per_form else rng.sample(its, per_form)
     cases, meta = [], []
-    for n, (it, ov) in enumerate(picked):
+    for n, (it, ov, last) in enumerate(picked):
         toks = it["text"].strip().split(" ")
         name = " ".join(NAMES[n % len(NAMES)])
+        if last:
+            # the operand the phrase ends with starts behind a connective (`of`, `on`, `off`, `to`, an operator)
+            ks = [k + 1 for k in range(len(toks) - 2, 0, -1) if toks[k].lower() in CONNECTIVES | {"of", "on", "off", "*", "/"}]
+            steps = [{"op": "execute", "lang": "en", "text": "%s = %s\n%s %s" % (name, " ".join(toks[k:]), " ".join(toks[:k]), name)} for k in dict.fromkeys(ks) if 1 <= k < len(toks)]
+            if steps:
+                cases.append({"id": "via%d" % n, "cfg": it["cfg"], "steps": steps[:4]})
+                meta.append((it, ov, last))
+            continue
         # the operand ends where the phrase's connective starts (or, in a keyword-less conversion, before the last word); a
         # connective-looking word may belong to the operand (`5 in to cm`), hence every candidate is tried in order
         ks = [k for k in range(1, len(toks)) if toks[k].lower() in CONNECTIVES] + [len(toks) - 1]
@@ -192,17 +241,17 @@ def phrases_through_variables(rep, per_form):
                 steps.append({"op": "execute", "lang": "en", "text": "%s = %s\n%s %s" % (name, " ".join(toks[:k]), name, " ".join(toks[k:]))})
         if steps:
             cases.append({"id": "via%d" % n, "cfg": it["cfg"], "steps": steps[:4]})
-            meta.append((it, ov))
+            meta.append((it, ov, last))
     obs = run_harness_stable_day(cases, "c03.via", jobs=8)
     used = 0
     forms_used = set()
-    for case, (it, ov), o in zip(cases, meta, obs):
+    for case, (it, ov, last), o in zip(cases, meta, obs):
         for st_in, st in zip(case["steps"], o.get("steps") or []):
             ss = proj.slots_of_step(st)
             if not ss or not ss[0] or len(ss[1]) != 2 or not compare.match_slot(ov, ss[1][0]):
                 continue
             used += 1
-            forms_used.add(it["line"]["form"])
+            forms_used.add(it["line"]["form"] + (".last" if last else ""))
             rep.case(["via", st_in["text"], it["cfg"]], True)
             rep.replayed += 1
             slot = ss[1][1]
@@ -211,8 +260,8 @@ def phrases_through_variables(rep, per_form):
                 kind = compare.failure_kind(slot, st)
                 rep.violation({"check": "replay", "form": "via", "text": st_in["text"].split("\n"), "phrase": it["line"], "cfg": it["cfg"],
                                "expected": [ov, it["expected"]], "observed": ss[1],
-                               "feat": {"failure": kind, "form": "via", "phrase": it["line"]["form"]},
-                               "class": "%s|via|%s" % (kind, it["line"]["form"])})
+                               "feat": {"failure": kind, "form": "via", "phrase": it["line"]["form"], "operand": "last" if last else "first"},
+                               "class": "%s|via|%s|%s" % (kind, it["line"]["form"], "last" if last else "first")})
             break
     rep.extra["phrases_through_variables"] = {"phrase_lines": len(cases), "operand_found_and_checked": used, "forms": sorted(forms_used)}
     if used < len(cases) // 2 or len(forms_used) < 8:
